@@ -452,10 +452,10 @@ def bo_case(ctx, rng, reqs, meta, case=None):
 
 # ------------------------------------------------------------------ C. gradients
 
-def grad_case(ctx, rng, reqs, meta):
+def grad_case(ctx, rng, reqs, meta, kind=None):
     d = rng.randint(1, 2)
     bounds = [(rng.choice([-1.0, 0.0]), rng.choice([1.0, 2.0])) for _ in range(d)]
-    kind = rng.choice(['lcbsc', 'maxvar'])
+    kind = kind or rng.choice(['lcbsc', 'maxvar'])
     wide = rng.random() < .5
     gp = make_gp(rng, d, bounds, rng.randint(6, 14))
     prior = ModelPrior(make_model(d, bounds, wide))
@@ -468,7 +468,7 @@ def grad_case(ctx, rng, reqs, meta):
     else:
         acq = MaxVar(gp, prior, quantile_eps=rng.choice([.05, .3]), seed=1)
         acq.eps = float(np.percentile(gp.Y, acq.quantile_eps * 100))
-    for _ in range(4):
+    for _ in range(6):
         x = np.array([rng.uniform(lo + .05, hi - .05) for lo, hi in bounds])
         with np.errstate(all='ignore'):
             g = np.ravel(acq.evaluate_gradient(x, t))
@@ -561,10 +561,10 @@ def process(ctx, n_acq, n_pick, n_bo, n_grad):
         if ctx.enough():
             break
         pick_case(ctx, rng, reqs, meta)
-    for _ in range(n_grad):
+    for k in range(n_grad):
         if ctx.enough():
             break
-        grad_case(ctx, rng, reqs, meta)
+        grad_case(ctx, rng, reqs, meta, kind=['maxvar', 'lcbsc', 'maxvar'][k % 3])
     for k in range(n_bo):
         if ctx.enough():
             break
@@ -574,7 +574,7 @@ def process(ctx, n_acq, n_pick, n_bo, n_grad):
 
 def run(ctx):
     if ctx.tier == 'quick':
-        process(ctx, 14, 8, 4, 6)
+        process(ctx, 14, 8, 4, 15)
     else:
         process(ctx, 150, 60, 40, 60)
 
